@@ -235,7 +235,9 @@ for op, (cols, rows, row, top, bottom) in {
         "Lf": (3, 3, 2, 0, 2), "Nel": (3, 3, 1, 0, 1), "Ri": (3, 3, 1, 1, 2)}.items():
     scroll(op, cols, rows, row, top, bottom, {"C06": Q, "C15": Q if op in ("Il", "Su") else T, "C02": Q if op in ("Dl", "Lf") else T,
                                                "C14": Q if op in ("Lf", "Dl") else T, "C17": T, "C16": T, "C01": T})
-scroll("Su", 3, 3, 1, 0, 1, {"C06": Q, "C14": Q, "C13": T, "C15": T, "C01": T})          # partial region anchored at the top: insert path
+scroll("Su", 3, 3, 1, 0, 1, {"C06": Q, "C14": Q, "C13": Q, "C15": T, "C01": T})          # partial region anchored at the top: insert path
+scroll("Su", 3, 3, 1, 0, 1, {"C14": Q, "C13": Q, "C06": T}, sb=0, alt=0, limit="Some(0)", suffix="_l0")   # same with scrollback limit 0
+scroll("Lf", 3, 3, 1, 0, 1, {"C14": T, "C13": T, "C06": T}, sb=0, alt=0, limit="Some(0)", suffix="_l0")
 scroll("Dl", 3, 3, 0, 0, 2, {"C06": Q, "C14": Q, "C01": T}, nfix=2)                       # DL at the top row feeds the scrollback
 # thorough: every (cursor row, margin pair) of a 3-row screen for every op
 for op in ("Su", "Sd", "Il", "Dl", "Lf", "Nel", "Ri"):
@@ -365,6 +367,9 @@ for op in ("Enter1047", "Enter1049"):
     switch(op, 3, 3, 0, {"C16": Q, "C17": Q if op == "Enter1049" else T, "C15": Q if op == "Enter1047" else T, "C13": Q if op == "Enter1047" else T, "C02": T, "C08": T, "C01": T})
     switch(op, 3, 3, 1, {"C16": Q if op == "Enter1047" else T, "C17": Q if op == "Enter1049" else T, "C02": T})
     switch(op, 1, 1, 0, {"C16": T, "C01": T}, sb=0)
+# entering while the alternate screen's own saved cursor is stale (the screen was shrunk while the primary was showing)
+switch("Enter1047", 3, 2, 0, {"C02": Q, "C17": Q, "C16": T}, parked_rows=3, asrow=2, suffix="_stale")
+switch("Enter1049", 3, 1, 0, {"C02": T, "C17": T, "C16": T}, parked_rows=3, asrow=1, suffix="_stale")
 for op in ("Leave1047", "Leave1049"):
     switch(op, 3, 3, 1, {"C16": Q, "C17": Q if op == "Leave1049" else T, "C15": Q if op == "Leave1049" else T, "C02": T, "C14": T, "C01": T})
     switch(op, 3, 3, 0, {"C16": T, "C17": T, "C02": T})
@@ -420,7 +425,7 @@ def resize_rows(cols, rows, new_rows, crow, props, sb=1, alt=0, limit="Some(1)",
 
 for (rows, new, crow, sb) in ((3, 2, 2, 1), (3, 2, 0, 1), (2, 3, 1, 1), (2, 3, 0, 0), (1, 3, 0, 2), (3, 1, 1, 0), (3, 1, 2, 1), (3, 1, 0, 1),
                               (2, 2, 1, 1), (3, 2, 1, 0), (2, 4, 1, 1), (4, 2, 1, 0), (4, 2, 3, 1), (1, 2, 0, 0), (2, 1, 0, 1), (2, 1, 1, 1)):
-    quick = (rows, new, crow, sb) in ((3, 2, 2, 1), (3, 2, 0, 1), (2, 3, 1, 1), (1, 3, 0, 2), (3, 1, 1, 0))
+    quick = (rows, new, crow, sb) in ((3, 2, 2, 1), (3, 2, 0, 1), (2, 3, 1, 1), (1, 3, 0, 2), (3, 1, 1, 0), (2, 4, 1, 1))
     resize_rows(2, rows, new, crow, {"C10": Q if quick else T, "C02": Q if (rows, new, crow) in ((3, 2, 0), (2, 3, 1)) else T, "C13": T, "C17": Q if (rows, new, crow) == (3, 1, 1) else T,
                                       "C15": Q if (rows, new, crow) == (2, 3, 1) else T, "C05": T, "C06": T, "C01": Q if (rows, new) in ((1, 3), (3, 1)) and quick else T}, sb=sb)
 resize_rows(2, 3, 2, 1, {"C16": Q, "C02": T, "C10": T}, sb=0, alt=1, parked=(3, 1), suffix="_parked3")
@@ -499,3 +504,35 @@ for (cols, rows) in ((2, 2), (1, 1), (3, 4)):
     inst("vt_query__%dx%d" % (cols, rows), "vt", "t_vt_query(%s)" % tcfg(cols, rows, sb=1, alt=2, limit="Some(1)"), max(cols, rows + 1) + 3,
          {"C02": Q if rows == 2 else T, "C01": Q if rows == 1 else T}, mem=6,
          desc="Vt::size/view/lines/line(n)/cursor from any InvT state: view is the rows-line tail of lines(), line widths, cursor range", bounds="%dx%d" % (cols, rows))
+
+
+# ----------------------------------------------------------------------------- reflow kernels (C10), R-pos
+for n in (1, 2, 3, 4):
+    inst("ln_trim__n%d" % n, "line", "t_line_trim(%d)" % n, 8, {"C10": Q if n == 3 else T, "C01": T},
+         desc="Line::trailers / trim / is_blank for any line of %d cells" % n, bounds="%d cells, any contents" % n)
+for (n, ln) in ((2, 1), (3, 1), (3, 2), (4, 1), (4, 2), (4, 3), (5, 2)):
+    inst("ln_contract__n%d_to%d" % (n, ln), "line", "t_line_contract(%d, %d)" % (n, ln), 9, {"C10": Q if (n, ln) in ((3, 2), (4, 2), (3, 1)) else T, "C01": T},
+         desc="Line::contract(%d) on any line of %d cells (any contents, any mark): head kept, overflow moved to the continuation in order, only trailing blanks of an unwrapped line dropped, marks" % (ln, n),
+         bounds="%d -> %d cells" % (n, ln), mem=8)
+EXT = []
+for la in (1, 2):
+    for lb in (1, 2, 3):
+        for ln in range(la, la + lb + 2):
+            if ln > 5:
+                continue
+            for aw in (True, False):
+                for bw in (True, False):
+                    for bt in range(0, lb + 1):
+                        if bw and bt > 0 and False:
+                            continue
+                        EXT.append((la, lb, ln, aw, bw, bt))
+for (la, lb, ln, aw, bw, bt) in EXT:
+    quick = aw and la == 2 and lb == 2 and ln in (3, 4) and bt in (0, 1)
+    inst("ln_extend__a%d_b%d_to%d_%s%s_t%d" % (la, lb, ln, "w" if aw else "u", "w" if bw else "u", bt), "line",
+         "t_line_extend(%d, %d, %d, %s, %s, %d)" % (la, lb, ln, str(aw).lower(), str(bw).lower(), bt), 9, {"C10": Q if quick else T},
+         desc="Line::extend(b, %d): a has %d cells (%s), b has %d cells (%s, %d trailing default blanks), contents symbolic: a' ++ rest' == a ++ b' in order, padding, marks"
+              % (ln, la, "wrapped" if aw else "unwrapped", lb, "wrapped" if bw else "unwrapped", bt),
+         bounds="shape-concrete, contents symbolic", mem=6)
+for (cols, rows, sb) in ((2, 2, 2), (3, 3, 2), (1, 2, 3), (2, 1, 4)):
+    inst("rpos__%dx%d_sb%d" % (cols, rows, sb), "buffer", "t_rpos(%d, %d, %d)" % (cols, rows, sb), rows + sb + 4, {"C10": Q if cols == 2 and rows == 2 else T, "C01": T},
+         desc="Buffer::relative_position(logical_position(p)) == p for any soft-wrap marks over %d lines" % (rows + sb), bounds="%dx%d + %d scrollback lines" % (cols, rows, sb))
